@@ -254,6 +254,11 @@ def run(prop, replay_file=None):
         ntr = 120 if t == "quick" else 1500
         nvalid, tr_feats = validate_random_traces(rep, prop, w, ntr, sd)
         feats_all.update(tr_feats)
+        # 5. code -> spec on WHOLE BACKTESTS: every broker call of real BacktestTradingSession runs, recorded and
+        #    validated by TLC against the same trace specification
+        nsess = validate_session_traces(rep, prop, w, 40 if t == "quick" else 600, sd, feats_all)
+        nvalid += nsess
+        rep.cov["session_traces_validated"] = nsess
         desc, pred = NONTRIVIAL[prop]
         rep.cov["evaluations"] = ncalls + ncover + rep.cov.get("trace_events", 0)
         rep.cov["distinct_nontrivial"] = sum(1 for f in feats_all.values() if pred(f))
@@ -340,12 +345,12 @@ def transition_cover(rep, prop, w, feats_all):
 
 
 # ---------------------------------------------------------------------------------------------
-def validate_traces(w, traces, timeout=3000):
+def validate_traces(w, traces, timeout=3000, assets=("A", "B", "C")):
     """Write a batch and let TLC validate it.  Returns {trace id: set((step, prop, clause))}."""
     path = os.path.join(w, "batch.json")
     broker_random.write_batch(traces, path)
     with open(os.path.join(w, "BrokerTrace.cfg"), "w") as fh:
-        fh.write('SPECIFICATION TraceSpec\nCONSTANTS\n  Assets = {"A", "B", "C"}\nCHECK_DEADLOCK FALSE\n')
+        fh.write('SPECIFICATION TraceSpec\nCONSTANTS\n  Assets = {%s}\nCHECK_DEADLOCK FALSE\n' % ", ".join('"%s"' % a for a in assets))
     r = tlc.run(w, "BrokerTrace", "BrokerTrace.cfg", workers=1, env={"QSV_TRACE": path}, timeout=timeout)
     os.remove(path)
     vals = tlaval.extract_tagged(r.out, "VERDICT")
@@ -395,6 +400,51 @@ def validate_random_traces(rep, prop, w, n, sd):
                             calls=[e["call"] for e in chunk[0]["ev"][:10]]))
     rep.cov["trace_events"] = nev
     return nvalid, feats
+
+
+def _session_trace_job(job):
+    i, sd = job
+    import random
+    import sys
+    from .common import REPO
+    if REPO not in sys.path:
+        sys.path.insert(0, REPO)
+    from . import session_rig as sr
+    rng = random.Random(sd * 6151 + i)
+    c = sr.gen_config(rng, allow_fail=False)
+    c["cash"] = 1000000                    # small positions keep the P&L rationals inside 32 bits
+    return sr.record_session_trace(c, 500000 + i, rng)
+
+
+def validate_session_traces(rep, prop, w, n, sd, feats_all):
+    import multiprocessing
+    with multiprocessing.Pool(16) as pool:
+        traces = [tr for tr in pool.map(_session_trace_job, [(i, sd) for i in range(n)], chunksize=2) if tr is not None]
+    traces = [tr for tr in traces if broker_random.max_abs_int(tr) < 2 ** 31 - 1]
+    if not traces:
+        return 0
+    try:
+        verdicts, r = validate_traces(w, traces, assets=("EQ:A", "EQ:B", "EQ:C"))
+    except tlc.TLCError as e:
+        rep.machinery.append("validation of session traces failed: %s" % str(e)[-1500:])
+        return 0
+    rep.cov["states"] += r.distinct
+    rep.cov["transitions"] += r.generated
+    for tr in traces:
+        rep.cov["trace_events"] = rep.cov.get("trace_events", 0) + len(tr["ev"])
+        feats_all["s%s" % tr["id"]] = behaviour_features(
+            [dict(call=e["call"], err=e["err"], fills=e["fills"], marks=e["marks"],
+                  post=dict(queue=dict((p, [1] * len(q)) for p, q in e["post"]["queue"].items()), hold=e["post"]["hold"]))
+             for e in tr["ev"]])
+        for (step, p, clause) in sorted(verdicts[tr["id"]]):
+            tag = "%s:%s" % (p, clause)
+            calls = [e["call"] for e in tr["ev"][:step]]
+            _route(rep, prop, tag, "broker calls of a real backtest session (trace %s) rejected by BrokerTrace at event %d: clause %s; event: %s" % (
+                tr["id"], step, tag, json.dumps(tr["ev"][step - 1])[:700]), step, dict(kind="session-trace", index=tr["id"] - 500000), calls)
+    if traces:
+        rep.sample(dict(kind="broker calls of a real BacktestTradingSession validated by BrokerTrace", events=len(traces[0]["ev"]),
+                        calls=[e["call"] for e in traces[0]["ev"][:8]]))
+    return len(traces)
 
 
 # ---------------------------------------------------------------------------------------------
